@@ -353,13 +353,13 @@ func ZZ_C01_Structure() {
 }
 
 // Exported access for harnesses in other packages.
-func ZZGenDoc(L int, faults bool) *zzDoc     { return zzGenDoc(L, faults) }
-func (d *zzDoc) Text() string                { return d.text }
-func (d *zzDoc) Lines() []string             { return d.lines }
-func (d *zzDoc) Accept() bool                { return d.accept }
-func (d *zzDoc) FaultLine() int              { return d.faultLine }
-func (d *zzDoc) FaultKind() string           { return d.faultKind }
-func (d *zzDoc) NumRecords() int             { return len(d.records) }
+func ZZGenDoc(L int, faults bool) *zzDoc       { return zzGenDoc(L, faults) }
+func (d *zzDoc) Text() string                  { return d.text }
+func (d *zzDoc) Lines() []string               { return d.lines }
+func (d *zzDoc) Accept() bool                  { return d.accept }
+func (d *zzDoc) FaultLine() int                { return d.faultLine }
+func (d *zzDoc) FaultKind() string             { return d.faultKind }
+func (d *zzDoc) NumRecords() int               { return len(d.records) }
 func (d *zzDoc) CheckRecords(rs []klog.Record) { zzCheckRecords(d, rs) }
 
 // RefTotal is the total time the document denotes (sum of durations and range lengths).
